@@ -77,7 +77,7 @@ func hdToSession(c int) *hdRecipient {
 // ---- C01 ----
 func TestVerifC01(t *testing.T) {
 	hdRunProperty(t, hdProp{id: "C01", quick: 90, thorough: 900, minOps: 10,
-		opts: func(i int) hdGenOpts { return hdGenOpts{api: i%4 == 0, internal: i%2 == 0, prehello: true} },
+		opts: func(i int) hdGenOpts { return hdGenOpts{api: i%4 == 0, internal: i%2 == 0, prehello: true, v2: i%3 != 2} },
 		nontrivial: func(c *hdCase, tr string) bool { return hdHas(tr, "SHello") && hdHas(tr, "SError") },
 		directed: func() []*hdCase {
 			// every request type before hello, then a failing and a succeeding hello of each kind
@@ -98,6 +98,39 @@ func TestVerifC01(t *testing.T) {
 			for i, tl := range tails {
 				out = append(out, &hdCase{Id: i, Mode: 1, Backends: []hdBackendCfg{{}, {}}, Ops: append(append([]hdOp{}, pre...), tl...)})
 			}
+			// protocol 2.0: four tenants (0 and 3 publish RSA keys, 1 ECDSA, 2 Ed25519); every signing method, every
+			// signer, the time claims around the leeway, absent claims; then one good token per tenant
+			var v2 []hdOp
+			v2 = append(v2, hdOp{K: "connect", C: 1, Addr: 1})
+			ip := hdIntp
+			for alg := 0; alg < len(hdV2Algs); alg++ {
+				for signer := 0; signer <= 4; signer++ {
+					v2 = append(v2, hdOp{K: "hello", C: 1, B: 0, U: 1, V2: &hdV2Tok{Alg: alg, Signer: signer, Iat: ip(-10), Exp: ip(300)}})
+					if signer == 1 && alg < 3 {
+						// accepted: the connection has a session now; end it and go on
+						v2 = append(v2, hdOp{K: "bye", C: 1}, hdOp{K: "connect", C: 1, Addr: 1})
+					}
+				}
+			}
+			for _, b := range []int{1, 2, 3} {
+				v2 = append(v2, hdOp{K: "hello", C: 1, B: b, U: 2, V2: &hdV2Tok{Alg: 0, Signer: 1, Iat: ip(-10), Exp: ip(300)}}) // tenant 0's key for tenant b
+			}
+			times := []hdV2Tok{
+				{Iat: ip(-400), Exp: ip(-70)}, {Iat: ip(-400), Exp: ip(-50)}, {Iat: ip(70), Exp: ip(400)}, {Iat: ip(50), Exp: ip(400)},
+				{Iat: ip(-10), Nbf: ip(70), Exp: ip(400)}, {Iat: ip(-10), Nbf: ip(50), Exp: ip(400)}, {Exp: ip(400)}, {Iat: ip(-10)},
+				{Iat: ip(-10), Exp: ip(-20)}, {}, {Iat: ip(70), Exp: ip(-70)},
+			}
+			for _, tm := range times {
+				tm.Alg, tm.Signer = 3, 2
+				t := tm
+				v2 = append(v2, hdOp{K: "hello", C: 1, B: 1, U: 3, V2: &t})
+				if t.Iat != nil && t.Exp != nil && *t.Iat <= 60 && *t.Exp > -60 && *t.Iat <= *t.Exp && (t.Nbf == nil || *t.Nbf <= 60) {
+					v2 = append(v2, hdOp{K: "bye", C: 1}, hdOp{K: "connect", C: 1, Addr: 1})
+				}
+			}
+			v2 = append(v2, hdOp{K: "hello", C: 1, B: 4, U: 1, V2: &hdV2Tok{Alg: 0, Signer: 1, Iat: ip(-10), Exp: ip(300)}}, // unconfigured URL
+				hdOp{K: "hello", C: 1, B: 2, U: 1, V2: &hdV2Tok{Alg: 6, Signer: 3, Iat: ip(-10), Exp: ip(300)}}, hdJoinOp(1, 1, 1))
+			out = append(out, &hdCase{Id: len(out), Mode: 1, Backends: []hdBackendCfg{{}, {}, {}, {}}, Ops: v2})
 			return out
 		}})
 }
@@ -120,8 +153,24 @@ func TestVerifC03(t *testing.T) {
 			kick := append(append([]hdOp{}, base...), hdJoinOp(1, 1, 5), hdJoinOp(2, 7, 5))
 			grant := append(append([]hdOp{}, base...), hdJoinOp(1, 1, 5),
 				hdOp{K: "api", B: 1, SignAs: 1, R: 9, Api: "participants", RawRS: true, Users: []hdApiUser{{RS: 5, HasP: true, Perm: []int{4, 3}}}})
+			// virtual sessions are reached through their internal client's connection: not from another tenant either
+			virt := []hdOp{{K: "connect", C: 1}, {K: "connect", C: 2}, {K: "connect", C: 3},
+				{K: "hello", C: 1, Ht: "internal", B: 0}, {K: "hello", C: 2, B: 1, U: 1}, {K: "hello", C: 3, Ht: "internal", B: 1},
+				hdJoinOp(1, 1, 0), {K: "internal", C: 1, Ik: "addsession", V: 1, R: 1, U: 2},
+				hdJoinOp(2, 1, 4),
+				{K: "msg", C: 2, To: &hdRecipient{T: "session", Id: &hdIdRef{T: "vpub", C: 1, V: 1}}, Tag: 11},
+				{K: "ctl", C: 2, To: &hdRecipient{T: "session", Id: &hdIdRef{T: "vpub", C: 1, V: 1}}, Tag: 12},
+				{K: "ctl", C: 3, To: &hdRecipient{T: "session", Id: &hdIdRef{T: "vpub", C: 1, V: 1}}, Tag: 13},
+				{K: "msg", C: 3, To: &hdRecipient{T: "session", Id: &hdIdRef{T: "pub", C: 1}}, Tag: 14},
+				{K: "ctl", C: 3, To: &hdRecipient{T: "session", Id: &hdIdRef{T: "pub", C: 1}}, Tag: 15},
+				// a participants request of tenant 1 naming public session ids of tenant 0 (that joined with a Nextcloud session id)
+				{K: "connect", C: 4}, {K: "hello", C: 4, B: 0, U: 3}, hdJoinOp(4, 1, 6),
+				{K: "api", B: 1, SignAs: 1, R: 1, Api: "participants", Users: []hdApiUser{{Id: &hdIdRef{T: "pub", C: 4}, InCall: 1, HasP: true, Perm: []int{4}}}},
+				{K: "api", B: 1, SignAs: 1, R: 1, Api: "incall", Users: []hdApiUser{{Id: &hdIdRef{T: "pub", C: 4}, InCall: 7}}},
+				{K: "api", B: 1, SignAs: 1, R: 1, Api: "disinvite", Users: []hdApiUser{{Id: &hdIdRef{T: "pub", C: 4}}}}}
 			return []*hdCase{
 				{Id: 0, Mode: 1, Ops: clean},
+				{Id: 3, Mode: 1, Ops: virt},
 				{Id: 1, Mode: 1, Ops: kick, Finding: "C03/room-session-map/global-kick"},
 				{Id: 2, Mode: 1, Ops: grant, Finding: "C03/room-session-map/global-api"},
 			}
@@ -154,7 +203,35 @@ func TestVerifC04(t *testing.T) {
 func TestVerifC05(t *testing.T) {
 	hdRunProperty(t, hdProp{id: "C05", quick: 110, thorough: 1100, minOps: 20,
 		opts: func(i int) hdGenOpts { return hdGenOpts{api: i%2 == 0, internal: i%3 == 0, messages: true} },
-		nontrivial: func(c *hdCase, tr string) bool { return strings.Count(tr, "SMsg") >= 2 }})
+		nontrivial: func(c *hdCase, tr string) bool { return strings.Count(tr, "SMsg") >= 2 },
+		directed: func() []*hdCase {
+			// every recipient type after the state it depends on changed: left the call, left the room, came back,
+			// second session of the same user, other tenant with the same room and user ids
+			all := func(c, tag int) []hdOp {
+				return []hdOp{{K: "msg", C: c, To: &hdRecipient{T: "call"}, Tag: tag}, {K: "ctl", C: c, To: &hdRecipient{T: "call"}, Tag: tag + 1},
+					{K: "msg", C: c, To: &hdRecipient{T: "room"}, Tag: tag + 2}, {K: "ctl", C: c, To: &hdRecipient{T: "room"}, Tag: tag + 3},
+					{K: "msg", C: c, To: &hdRecipient{T: "user", U: 2}, Tag: tag + 4}, {K: "msg", C: c, To: hdToSession(2), Tag: tag + 5},
+					{K: "ctl", C: c, To: hdToSession(4), Tag: tag + 6}}
+			}
+			ops := []hdOp{{K: "connect", C: 1}, {K: "connect", C: 2}, {K: "connect", C: 3}, {K: "connect", C: 4},
+				{K: "hello", C: 1, B: 0, U: 1}, {K: "hello", C: 2, B: 0, U: 2}, {K: "hello", C: 3, B: 0, U: 2}, {K: "hello", C: 4, B: 1, U: 2},
+				hdJoinOp(1, 1, 1), hdJoinOp(2, 1, 2), hdJoinOp(3, 1, 3), hdJoinOp(4, 1, 4)}
+			ops = append(ops, all(1, 100)...)
+			ops = append(ops, hdOp{K: "api", B: 0, SignAs: 0, R: 1, Api: "incall", RawRS: true, Users: []hdApiUser{{RS: 1, InCall: 1}, {RS: 2, InCall: 1}, {RS: 3, InCall: 3}}})
+			ops = append(ops, all(1, 200)...)
+			ops = append(ops, hdOp{K: "api", B: 0, SignAs: 0, R: 1, Api: "incall", RawRS: true, Users: []hdApiUser{{RS: 2, InCall: 0}}}) // 2 leaves the call, stays in the room
+			ops = append(ops, all(1, 300)...)
+			ops = append(ops, all(3, 350)...)
+			ops = append(ops, hdJoinOp(3, 2, 3)) // 3 switches to another room
+			ops = append(ops, all(1, 400)...)
+			ops = append(ops, hdJoinOp(3, 1, 3)) // and comes back: not in the call until the backend says so
+			ops = append(ops, all(1, 500)...)
+			ops = append(ops, hdOp{K: "api", B: 0, SignAs: 0, R: 1, Api: "incallall", InCall: 0})
+			ops = append(ops, all(1, 600)...)
+			ops = append(ops, hdJoinOp(2, 0, 0)) // 2 leaves the room
+			ops = append(ops, all(1, 700)...)
+			return []*hdCase{{Id: 0, Mode: 1, Ops: ops}}
+		}})
 }
 
 // ---- C06 ----
@@ -185,7 +262,32 @@ func TestVerifC06(t *testing.T) {
 				hdOp{K: "msg", C: 1, To: hdToSession(4), Tag: 201},
 				hdOp{K: "bye", C: 4}, hdOp{K: "connect", C: 5}, hdOp{K: "hello", C: 5, Ht: "resume", Id: &hdIdRef{T: "priv", C: 4}},
 				hdOp{K: "drop", C: 1}, hdOp{K: "tick", O: 40}, hdOp{K: "hello", C: 5, Ht: "resume", Id: &hdIdRef{T: "priv", C: 1}})
-			return []*hdCase{{Id: 0, Mode: 1, Ops: ops}}
+			// the room is deleted (by the backend) while a member is disconnected: after the resume the client must know
+			gone := []hdOp{{K: "connect", C: 1}, {K: "connect", C: 2}, {K: "hello", C: 1, B: 0, U: 1}, {K: "hello", C: 2, B: 0, U: 2},
+				hdJoinOp(1, 1, 1), hdJoinOp(2, 1, 2), {K: "drop", C: 2},
+				{K: "api", B: 0, SignAs: 0, R: 1, Api: "delete"},
+				{K: "connect", C: 3}, {K: "hello", C: 3, Ht: "resume", Id: &hdIdRef{T: "priv", C: 2}},
+				{K: "msg", C: 3, To: &hdRecipient{T: "room"}, Tag: 7}}
+			// chat-refresh notices over two disconnect/resume cycles: merged into one per cycle, never lost
+			cr := func(tag int) hdOp { return hdOp{K: "msg", C: 1, To: hdToSession(2), Tag: tag} }
+			chat := []hdOp{{K: "connect", C: 1}, {K: "connect", C: 2}, {K: "hello", C: 1, B: 0, U: 1}, {K: "hello", C: 2, B: 0, U: 2},
+				hdJoinOp(1, 1, 1), hdJoinOp(2, 1, 2), {K: "drop", C: 2},
+				cr(hdChatRefreshTag), cr(301), cr(hdChatRefreshTag), cr(302), cr(hdChatRefreshTag),
+				{K: "connect", C: 3}, {K: "hello", C: 3, Ht: "resume", Id: &hdIdRef{T: "priv", C: 2}},
+				{K: "drop", C: 3},
+				{K: "msg", C: 1, To: hdToSession(3), Tag: 303}, {K: "msg", C: 1, To: hdToSession(3), Tag: hdChatRefreshTag}, {K: "msg", C: 1, To: hdToSession(3), Tag: hdChatRefreshTag},
+				{K: "connect", C: 4}, {K: "hello", C: 4, Ht: "resume", Id: &hdIdRef{T: "priv", C: 3}},
+				{K: "msg", C: 1, To: hdToSession(4), Tag: hdChatRefreshTag}}
+			// a resume whose connection goes away while the hub looks the session up: nothing is attached, the
+			// session still expires, and its id is refused afterwards
+			lost := []hdOp{{K: "connect", C: 1}, {K: "connect", C: 2}, {K: "hello", C: 1, B: 0, U: 1}, {K: "hello", C: 2, B: 0, U: 2},
+				hdJoinOp(1, 1, 1), hdJoinOp(2, 1, 2), {K: "drop", C: 2},
+				{K: "connect", C: 3}, {K: "helloabort", C: 3, Ht: "resume", Id: &hdIdRef{T: "priv", C: 2}},
+				{K: "msg", C: 1, To: &hdRecipient{T: "room"}, Tag: 5},
+				{K: "tick", O: 40},
+				{K: "connect", C: 4}, {K: "hello", C: 4, Ht: "resume", Id: &hdIdRef{T: "priv", C: 2}},
+				{K: "msg", C: 1, To: &hdRecipient{T: "room"}, Tag: 6}}
+			return []*hdCase{{Id: 0, Mode: 1, Ops: ops}, {Id: 1, Mode: 1, Ops: gone}, {Id: 2, Mode: 1, Ops: chat}, {Id: 3, Mode: 1, Ops: lost}}
 		}})
 }
 
@@ -193,7 +295,44 @@ func TestVerifC06(t *testing.T) {
 func TestVerifC07(t *testing.T) {
 	hdRunProperty(t, hdProp{id: "C07", quick: 110, thorough: 1100, minOps: 20,
 		opts: func(i int) hdGenOpts { return hdGenOpts{api: true, internal: i%2 == 0, media: i%4 == 0, limits: true, endings: true} },
-		nontrivial: func(c *hdCase, tr string) bool { return hdHas(tr, "OBye") || hdHas(tr, "OTick 40") || hdHas(tr, "SBye") }})
+		nontrivial: func(c *hdCase, tr string) bool { return hdHas(tr, "OBye") || hdHas(tr, "OTick 40") || hdHas(tr, "SBye") },
+		directed: func() []*hdCase {
+			base := []hdOp{{K: "connect", C: 1}, {K: "connect", C: 2}, {K: "connect", C: 3},
+				{K: "hello", C: 1, B: 0, U: 1}, {K: "hello", C: 2, B: 0, U: 2}, {K: "hello", C: 3, Ht: "internal", B: 0},
+				hdJoinOp(1, 1, 5), hdJoinOp(2, 1, 6), hdJoinOp(3, 1, 0)}
+			// the Nextcloud session id of one member is taken over by another member of the same room (no kick on
+			// that path), by an internal client (never kicks), then the first holder ends in each possible way
+			take := func(end ...hdOp) []hdOp {
+				ops := append(append([]hdOp{}, base...), hdJoinOp(2, 1, 5))
+				return append(ops, end...)
+			}
+			takeInt := func(end ...hdOp) []hdOp {
+				ops := append(append([]hdOp{}, base...), hdJoinOp(3, 1, 5))
+				return append(ops, end...)
+			}
+			tail := []hdOp{hdJoinOp(2, 2, 5), {K: "bye", C: 2}, {K: "bye", C: 3}, {K: "tick", O: 40}}
+			var out []*hdCase
+			// hellos abandoned mid-way on a backend with two slots, then the slots are used: none was lost
+			ab := []hdOp{{K: "connect", C: 1}, {K: "helloabort", C: 1, B: 0, U: 1, Late: true}, {K: "connect", C: 2}, {K: "helloabort", C: 2, B: 0, U: 2},
+				{K: "connect", C: 3}, {K: "helloabort", C: 3, B: 0, U: 3, Late: true},
+				{K: "connect", C: 4}, {K: "hello", C: 4, B: 0, U: 1}, {K: "connect", C: 5}, {K: "hello", C: 5, B: 0, U: 2},
+				{K: "connect", C: 6}, {K: "hello", C: 6, B: 0, U: 3}, // third one: over the limit
+				{K: "drop", C: 5}, {K: "connect", C: 7}, {K: "helloabort", C: 7, Ht: "resume", Id: &hdIdRef{T: "priv", C: 5}},
+				{K: "tick", O: 40}, {K: "hello", C: 6, B: 0, U: 3}, // the expired session's slot is free again
+				{K: "connect", C: 8}, {K: "helloabort", C: 8, B: 0, U: 1, Late: true}, {K: "bye", C: 4}, {K: "bye", C: 6}}
+			out = append(out, &hdCase{Id: 20, Mode: 1, Backends: []hdBackendCfg{{Limit: 2}, {}}, Ops: ab})
+			for i, ops := range [][]hdOp{
+				take(append([]hdOp{{K: "bye", C: 1}}, tail...)...),
+				take(append([]hdOp{{K: "drop", C: 1}, {K: "tick", O: 40}}, tail...)...),
+				take(append([]hdOp{hdJoinOp(1, 0, 0), hdJoinOp(1, 1, 5)}, tail...)...),
+				take(append([]hdOp{{K: "api", B: 0, SignAs: 0, R: 1, Api: "delete"}}, tail...)...),
+				takeInt(append([]hdOp{{K: "bye", C: 1}}, tail...)...),
+				takeInt(append([]hdOp{{K: "bye", C: 3}, {K: "bye", C: 1}}, tail...)...),
+			} {
+				out = append(out, &hdCase{Id: i, Mode: 1, Ops: ops})
+			}
+			return out
+		}})
 }
 
 // ---- C08 ----
